@@ -7,6 +7,8 @@ PROP = dict(
               "Shangrla.C16.quantileInt_const", "Shangrla.C16.prefix_crossing", "Shangrla.C16.prefix_crossing_tail",
               "Shangrla.C16.prefix_crossing_km", "Shangrla.C16.find_prefix_crossing",
               "Shangrla.C16.maxOf_spec", "Shangrla.C16.contest_is_max", "Shangrla.C16.audit_contest_is_max",
+              "Shangrla.C16.auditInj_is_max", "Shangrla.C16.auditInj_eq", "Shangrla.C16.audit_per_contest",
+              "Shangrla.C16.audit_order_irrelevant", "Shangrla.C16.auditTotalNoStyle_spec",
               "Shangrla.C16.interleave_classes", "Shangrla.C16.interleave_counts"],
     groups={"samplesize": (1200, 12000)},
     design_ref="DESIGN.md section 5, C16",
@@ -16,7 +18,8 @@ PROP = dict(
         "C05 package's theorem",
         "the random tails prng.choice(x, size) of the simulation branch are an argument of the model (universally "
         "quantified in the theorems); the harness reproduces them from np.random.RandomState(seed)",
-        "Audit.find_sample_size: only the maximum over the unproved assertions of a contest is modelled; "
-        "mvrs_to_data results and the ONEAudit error injection are inputs",
+        "Audit.find_sample_size: modelled are the loop over contests, the maximum over the unproved assertions of "
+        "each contest, the ONEAudit error injection and the total returned without style information; "
+        "mvrs_to_data results are inputs; the cvr.p / total computation with style information is not modelled",
     ],
 )
